@@ -146,7 +146,9 @@ def sib_add(ctx: Ctx) -> List[Ob]:
         # the other conditions the refusal depends on, with the source variable abstracted
         src = (_match("$$s._parent is $$x", atom) or _match("$$s.parent is $$x", atom) or {}).get("$$s")
         srct = norm(src) if src is not None else "?"
-        rest = sorted(("" if pol else "not ") + _rename(norm(e), {srct: "SRC"}) for e, pol in pcs
+        from .util import resolve_expr as _rx
+
+        rest = sorted(("" if pol else "not ") + _rename(norm(_rx(ctx, f, st, e, keep=[srct])), {srct: "SRC"}) for e, pol in pcs
                       if e is not atom and any(isinstance(x, ast.Name) and x.id == srct for x in ast.walk(e)))
         shapes.append(rest)
     ok = shapes[0] == shapes[1]
